@@ -140,9 +140,11 @@ structure InnerOut where
 def optimizeInner {σ : Type} (A : Arith) (caps : WrapCaps) (E : Env σ) (mk : Prob → Alg) (fuel : Nat)
     (v : CoreView) (hasLocal : Bool) (x : List F64) (minf0 : F64) (st : σ) : Option InnerOut × σ × Bool :=
   if v.n = 0 then
-    -- trivial case: one evaluation, counter set (after the fix of the stale counter)
+    -- trivial case: one evaluation, counter set (after the fix of the stale counter);
+    -- `return opt->force_stop ? NLOPT_FORCED_STOP : NLOPT_SUCCESS;` -- the objective may have called
+    -- nlopt_force_stop (the flag was reset to 0 at the entry of nlopt_optimize)
     let r := E.call st { fn := .obj, x := x, wantGrad := false }
-    (some { ret := rSUCCESS, x := x, minf := r.2.val.headD minf0, numevals := 1,
+    (some { ret := (match r.2.stop with | some s => if s ≠ 0 then rFORCED else rSUCCESS | none => rSUCCESS), x := x, minf := r.2.val.headD minf0, numevals := 1,
             atrace := [({ fn := .obj, x := x, wantGrad := false }, r.2)] }, r.1, false)
   else if boundsFail (optV v.lb) (optV v.ub) x then
     (some { ret := rINVALID, x := x, minf := F64.posInf, numevals := v.numevals }, st, false)
